@@ -442,6 +442,20 @@ func c14Run(sc *C14Scenario) (v *nodeViolation, flags map[string]bool) {
 }
 
 func genC14(t *rapid.T) *C14Scenario {
+	if rapid.IntRange(0, 14).Draw(t, "bulk") == 0 {
+		// bulk profile: more announcements than fit one re-request message (batches of about 100)
+		sc := &C14Scenario{NTx: rapid.IntRange(90, 260).Draw(t, "bulkn"), Untrusted: 2}
+		all := make([]int, sc.NTx)
+		for i := range all {
+			all[i] = i
+		}
+		first := rapid.IntRange(0, 2).Draw(t, "first")
+		second := (first + 1 + rapid.IntRange(0, 1).Draw(t, "second")) % 3
+		sc.Events = append(sc.Events, C14Event{Op: "inv", Src: first, Txs: all}, C14Event{Op: "inv", Src: second, Txs: all},
+			C14Event{Op: "time", Ms: rapid.SampledFrom([]int{500, 3100, 7000}).Draw(t, "wait")}, C14Event{Op: "check", Src: second},
+			C14Event{Op: "time", Ms: 3100}, C14Event{Op: "check", Src: first}, C14Event{Op: "check", Src: second})
+		return sc
+	}
 	sc := &C14Scenario{NTx: rapid.IntRange(1, 5).Draw(t, "ntx"), Untrusted: rapid.IntRange(1, 3).Draw(t, "untrusted")}
 	n := rapid.IntRange(3, 40).Draw(t, "nev")
 	for i := 0; i < n; i++ {
@@ -483,7 +497,7 @@ func c14Nontrivial(f map[string]bool) bool {
 	return f["announced-while-requested"] && (f["window-expiry"] || f["delivery"])
 }
 
-const c14Rule = "step-mode histories with the real trusted and untrusted inventory handlers and trackers (real UntrustedNode objects, 1..3 of them) over one mempool: inv of overlapping txid sets on any connection, bodies from any connection, logical time steps (0.5 s, 2.9 s, 3.1 s, 7 s via the time-shift hook), activity/check on a connection, blocks confirming txid sets, and blocks whose processing goroutine is held at a drawn storage/fetcher operation while connections get activity; oracle over the per-connection getdata(tx) log with logical time stamps: first request issued, no second request inside the 3 s window, none after the body was processed or confirmed, re-request on the next activity of a connection that announced it; non-trivial = at least two connections announce one txid and a window expiry or a delivery occurs; distinct by scenario hash"
+const c14Rule = "step-mode histories with the real trusted and untrusted inventory handlers and trackers (real UntrustedNode objects, 1..3 of them) over one mempool: inv of overlapping txid sets on any connection (one case in fifteen announces 90-260 txids on two connections, more than one re-request message holds), bodies from any connection, logical time steps (0.5 s, 2.9 s, 3.1 s, 7 s via the time-shift hook), activity/check on a connection, blocks confirming txid sets, and blocks whose processing goroutine is held at a drawn storage/fetcher operation while connections get activity; oracle over the per-connection getdata(tx) log with logical time stamps: first request issued, no second request inside the 3 s window, none after the body was processed or confirmed, re-request on the next activity of a connection that announced it; non-trivial = at least two connections announce one txid and a window expiry or a delivery occurs; distinct by scenario hash"
 
 func TestC14Requests(t *testing.T) {
 	rep := verifkit.NewReport("C14", "TestC14Requests", c14Rule)
